@@ -346,6 +346,10 @@ pub fn c10(ctx: &Ctx, rep: &mut Report) {
         if !ctx.mine(k) {
             continue;
         }
+        // the debug build needs most of a minute to refuse 70 000 constants: release only in the quick tier
+        if ctx.quick() && cfg!(debug_assertions) && ["capacity-constants-70000", "capacity-locals-70000", "capacity-fields-40000"].contains(&name.as_str()) {
+            continue;
+        }
         let f = dir.join(format!("h{}.fml", k));
         if std::fs::write(&f, &src).is_err() {
             continue;
@@ -1214,8 +1218,17 @@ pub fn c11(ctx: &Ctx, rep: &mut Report) {
             }
         }
     }
-    if ctx.shard == 1 % ctx.nshards {
+    {
+        let mut js = 0usize;
         for (name, src) in stress_sources() {
+            js += 1;
+            if js % ctx.nshards != ctx.shard {
+                continue;
+            }
+            // the long histories run for seconds in the debug build: thorough tier only
+            if ctx.quick() && (name.starts_with("long-") || name == "constants-33000") {
+                continue;
+            }
             if let Ok(a) = real::parse(&src) {
                 sources.push((format!("stress:{}", name), a, src));
             }
